@@ -302,6 +302,9 @@ static CO_ERR wr(int w, uint32_t key, uint32_t v)
     return CODictWrLong(&Node.Dict, key, v);
 }
 
+/* TY_AP: every entry additionally carries the flags "asynchronous" and "PDO mappable" (a write then also runs the TPDO trigger), the node is started and an
+ * unrelated node error is pending that the application never fetches (a refused CONmtSetNodeId) - a typed access succeeds or fails by width alone */
+static int TY_AP, CurAP = -1;
 static void typed_world(uint8_t nid)
 {
     OdB b; static const CO_OBJ_TYPE *const TY[5] = { 0, &COTInt8, &COTInt16, 0, &COTInt32 };
@@ -313,13 +316,14 @@ static void typed_world(uint8_t nid)
         t->idx = (uint16_t)(0x2100 + e);
         t->init = (0xA1B2C3D4u ^ ((uint32_t)e * 0x07070707u)) & WMASK(t->w);
         if (!t->direct && !t->ref) t->ref = malloc(t->w);          /* exactly the entry's width: a wider access hits the red zone */
-        od_add(&b, CO_KEY(t->idx, 0, (t->direct ? CO_OBJ_D_____ : 0) | (t->nid ? CO_OBJ__N____ : 0) | CO_OBJ_____RW), TY[t->w], t->direct ? (CO_DATA)0 : (CO_DATA)t->ref);
+        od_add(&b, CO_KEY(t->idx, 0, (t->direct ? CO_OBJ_D_____ : 0) | (t->nid ? CO_OBJ__N____ : 0) | (TY_AP ? CO_OBJ___APRW : CO_OBJ_____RW)), TY[t->w], t->direct ? (CO_DATA)0 : (CO_DATA)t->ref);
     }
     for (int e = 0; e < NTE; e++) { TE[e].obj = 0; for (int i = 0; i < b.used; i++) if (CO_GET_IDX(TOD[i].Key) == TE[e].idx) TE[e].obj = &TOD[i]; raw_set(&TE[e], TE[e].init); }
     node_init(TOD, 40, nid);
+    if (TY_AP) { CONodeStart(&Node); CONmtSetNodeId(&Node.Nmt, (uint8_t)(nid == 1 ? 2 : 1)); }
     W_REG(TOD);
     for (int e = 0; e < NTE; e++) if (!TE[e].direct) w_region(TE[e].ref, TE[e].w, 1);
-    CurNid = nid;
+    CurNid = nid; CurAP = TY_AP;
 }
 
 static const char *ent_name(const TEnt *t) { static char b[64]; snprintf(b, sizeof b, "%d-bit %s%s entry %04X", t->w * 8, t->direct ? "direct" : "referenced", t->nid ? " node-id" : "", t->idx); return b; }
@@ -329,7 +333,7 @@ static void typed_case(int e, uint8_t nid, uint32_t v)
 {
     char smp[200]; uint64_t h = 3;
     case_begin();
-    if (CurNid != nid) typed_world(nid);
+    if (CurNid != nid || CurAP != TY_AP) typed_world(nid);
     for (int k = 0; k < NTE; k++) raw_set(&TE[k], TE[k].init);
     if (Node.NodeId != nid) FAIL("c06-typed-nodeid", "node initialised with node id %u reports id %u", nid, Node.NodeId);
     if (e >= NTE) {                                             /* absent objects: no typed access may succeed */
@@ -405,17 +409,20 @@ static void run_typed(int tier)
 {
     static const int QN[] = { 1, 2, 63, 127 };
     int nn = tier ? 127 : 4;
+    for (TY_AP = 0; TY_AP < 2; TY_AP++)
     for (int ni = 0; ni < nn && !mc_deadline_hit(); ni++) {
         uint8_t nid = (uint8_t)(tier ? ni + 1 : QN[ni]);
+        if (TY_AP && tier && (nid % 16) != 1 && nid != 127) continue;
         typed_world(nid);
         make_v32(nid);
         for (int e = 0; e < NTE && !mc_deadline_hit(); e++) {
             int w = TE[e].w;
-            if (w == 4) for (int i = 0; i < NV32; i++) { mc_case(3, e, nid, (int)V32[i]); typed_case(e, nid, V32[i]); }
-            else for (uint32_t v = 0; v <= WMASK(w); v++) { mc_case(3, e, nid, (int)v); typed_case(e, nid, v); }
+            if (w == 4) for (int i = 0; i < NV32; i++) { mc_case(4, e, nid, (int)V32[i], TY_AP); typed_case(e, nid, V32[i]); }
+            else for (uint32_t v = 0; v <= WMASK(w); v++) { mc_case(4, e, nid, (int)v, TY_AP); typed_case(e, nid, v); }
         }
-        for (int e = NTE; e < NTE + 3; e++) { mc_case(3, e, nid, 0x11); typed_case(e, nid, 0x11); }
+        for (int e = NTE; e < NTE + 3; e++) { mc_case(4, e, nid, 0x11, TY_AP); typed_case(e, nid, 0x11); }
     }
+    TY_AP = 0;
 }
 
 /* ================================================================== cfg 3: buffers */
@@ -547,7 +554,7 @@ static void run_case(const int *c, int n)
     mc_case_v(c + 1, n - 1);
     if (c[0] == 0) replay_lookup(c, n);
     else if (c[0] == 1 && n >= 6) init_case(c[1], c[2], c[3], c[4], c[5]);
-    else if (c[0] == 2 && n >= 4) typed_case(c[1], (uint8_t)c[2], (uint32_t)c[3]);
+    else if (c[0] == 2 && n >= 4) { TY_AP = n >= 5 ? c[4] : 0; typed_case(c[1], (uint8_t)c[2], (uint32_t)c[3]); }
     else if (c[0] == 3 && n >= 4) { buffer_world(); buffer_case(c[1], c[2], c[3], n >= 5 ? c[4] : 0); }
 }
 
